@@ -206,6 +206,7 @@ func modelProp(id string, proj projection, rule string, require []string, extra 
 			})
 			if id == "C04" {
 				sweepC04(c)
+				drainDirect(c)
 			}
 			if id == "C05" {
 				sweepC05(c)
